@@ -93,6 +93,8 @@ pub enum Shape {
     Merge(usize),
     /// src -> MarkBursts(k) -> StreamToPdu -> VecToStream -> sink
     Packets(usize),
+    /// harness packet source (packets of these sizes) -> VecToStream -> sink
+    VecPackets(Vec<usize>),
 }
 
 #[derive(Clone, Debug, PartialEq)]
@@ -117,6 +119,7 @@ impl GraphSpec {
             Shape::Diamond(a, b) => json!({"diamond": [a.as_ref().map(|s| s.to_json()), b.as_ref().map(|s| s.to_json())]}),
             Shape::Merge(n) => json!({"merge": n}),
             Shape::Packets(k) => json!({"packets": k}),
+            Shape::VecPackets(v) => json!({"vecpackets": v}),
         };
         json!({"shape": shape, "per_page": self.per_page, "pages": self.pages, "src_len": self.src_len, "order": self.order,
             "file_repeat": self.file_repeat})
@@ -131,6 +134,7 @@ impl GraphSpec {
             "diamond" => Shape::Diamond(opt(&x[0]), opt(&x[1])),
             "merge" => Shape::Merge(x.as_u64().unwrap() as usize),
             "packets" => Shape::Packets(x.as_u64().unwrap() as usize),
+            "vecpackets" => Shape::VecPackets(x.as_array().unwrap().iter().map(|y| y.as_u64().unwrap() as usize).collect()),
             _ => panic!("shape {k}"),
         };
         let us = |k: &str| v[k].as_u64().unwrap() as usize;
@@ -150,6 +154,7 @@ impl GraphSpec {
             Shape::Diamond(a, b) => 4 + a.is_some() as usize + b.is_some() as usize,
             Shape::Merge(_) => 4,
             Shape::Packets(_) => 5,
+            Shape::VecPackets(_) => 3,
         }
     }
     /// Programs whose result the documentation does not pin down, or that
@@ -174,6 +179,7 @@ impl GraphSpec {
             }
             Shape::Merge(_) => false,
             Shape::Packets(k) => *k > self.per_page * self.pages,
+            Shape::VecPackets(v) => v.iter().any(|k| *k > self.per_page * self.pages),
         }
     }
     /// What the source emits in total.
@@ -208,6 +214,17 @@ impl GraphSpec {
             Shape::Merge(n) => {
                 let other: Vec<u64> = (0..*n as u64).map(|i| 1000 + i).collect();
                 vec![src.iter().zip(other.iter()).map(|(p, q)| p.wrapping_add(*q)).collect()]
+            }
+            Shape::VecPackets(v) => {
+                let mut out = vec![];
+                let mut n = 100u64;
+                for k in v {
+                    for _ in 0..*k {
+                        out.push(n);
+                        n += 1;
+                    }
+                }
+                vec![out]
             }
             Shape::Packets(k) => {
                 // Bursts of k samples, separated by one sample that is
@@ -290,6 +307,28 @@ const SINK_MAX: usize = 1_000_000;
 pub fn build<T: BigT>(g: &GraphSpec) -> Built<T> {
     let mut blocks: Vec<Box<dyn Block + Send>> = Vec::new();
     let mut sinks = Vec::new();
+    if let Shape::VecPackets(sizes) = &g.shape {
+        let mut n = 100u64;
+        let packets: Vec<Vec<T>> = sizes
+            .iter()
+            .map(|k| {
+                (0..*k)
+                    .map(|_| {
+                        n += 1;
+                        T::from(n - 1)
+                    })
+                    .collect()
+            })
+            .collect();
+        let (src, po) = PacketSource::new(packets);
+        blocks.push(Box::new(src));
+        let (v2s, o) = VecToStream::new(po);
+        blocks.push(Box::new(v2s));
+        let s1 = VectorSink::new(o, SINK_MAX);
+        sinks.push(s1.hook());
+        blocks.push(Box::new(s1));
+        return Built { blocks, sinks };
+    }
     let mut prev = if g.file_repeat > 0 {
         let once: Vec<u8> = (0..g.src_len as u64).flat_map(|i| (10 + i).to_le_bytes()).collect();
         let path = std::env::temp_dir().join(format!("verif-graph-{}-{}.bin", std::process::id(), g.src_len));
@@ -353,6 +392,7 @@ pub fn build<T: BigT>(g: &GraphSpec) -> Built<T> {
             sinks.push(s1.hook());
             blocks.push(Box::new(s1));
         }
+        Shape::VecPackets(_) => unreachable!(),
         Shape::Packets(k) => {
             let (mark, o) = MarkBursts::new(prev, *k);
             blocks.push(Box::new(mark));
@@ -503,6 +543,66 @@ impl<T: Copy> Block for MarkBursts<T> {
         self.pos += n;
         i.consume(n);
         o.produce(n, &tags);
+        Ok(BlockRet::Again)
+    }
+}
+
+/// Harness block: pushes its packets, one per call, then reports EOF.
+pub struct PacketSource<T> {
+    dst: rustradio::stream::NCWriteStream<Vec<T>>,
+    packets: std::collections::VecDeque<Vec<T>>,
+}
+
+impl<T> PacketSource<T> {
+    pub fn new(packets: Vec<Vec<T>>) -> (Self, rustradio::stream::NCReadStream<Vec<T>>) {
+        let (dst, r) = rustradio::stream::new_nocopy_stream();
+        (Self { dst, packets: packets.into() }, r)
+    }
+}
+impl<T> BlockName for PacketSource<T> {
+    fn block_name(&self) -> &str {
+        "PacketSource"
+    }
+}
+impl<T> BlockEOF for PacketSource<T> {}
+impl<T> Block for PacketSource<T> {
+    fn work(&mut self) -> Result<BlockRet> {
+        match self.packets.pop_front() {
+            Some(p) => {
+                self.dst.push(p, &[]);
+                Ok(if self.packets.is_empty() { BlockRet::EOF } else { BlockRet::Again })
+            }
+            None => Ok(BlockRet::EOF),
+        }
+    }
+}
+
+/// Harness block: an endless source that produces one sample per call and
+/// answers Again as long as there is room.
+pub struct AgainSource<T: Copy> {
+    dst: WriteStream<T>,
+    val: T,
+}
+impl<T: Copy> AgainSource<T> {
+    pub fn new(val: T) -> (Self, ReadStream<T>) {
+        let (dst, r) = rustradio::stream::new_stream();
+        (Self { dst, val }, r)
+    }
+}
+impl<T: Copy> BlockName for AgainSource<T> {
+    fn block_name(&self) -> &str {
+        "AgainSource"
+    }
+}
+impl<T: Copy> BlockEOF for AgainSource<T> {}
+impl<T: Copy> Block for AgainSource<T> {
+    fn work(&mut self) -> Result<BlockRet> {
+        let mut o = self.dst.write_buf()?;
+        if o.is_empty() {
+            return Ok(BlockRet::WaitForStream(&self.dst, 1));
+        }
+        o.slice()[0] = self.val;
+        o.produce(1, &[]);
         Ok(BlockRet::Again)
     }
 }
